@@ -1179,4 +1179,278 @@ theorem leaves_coreL (hp : Heap) (py : Name → Except Err H) (rs : HExpr → Ex
     simp [resolveH.resolveHs, hw2, hws2, Except.bind]
 end
 
+/-! ### more fuel never hurts -/
+
+theorem mono1 (f : Nat) :
+    (∀ ts r, pExpr f ts = some r → pExpr (f+1) ts = some r) ∧
+    (∀ a ts r, pOrs f a ts = some r → pOrs (f+1) a ts = some r) ∧
+    (∀ ts r, pPost f ts = some r → pPost (f+1) ts = some r) ∧
+    (∀ a ts r, pTrail f a ts = some r → pTrail (f+1) a ts = some r) ∧
+    (∀ ts r, pAtom f ts = some r → pAtom (f+1) ts = some r) ∧
+    (∀ ts r, pArgs f ts = some r → pArgs (f+1) ts = some r) := by
+  induction f with
+  | zero => simp [pExpr, pOrs, pPost, pTrail, pAtom, pArgs]
+  | succ f ih =>
+    obtain ⟨hE, hO, hP, hT, hA, hR⟩ := ih
+    refine ⟨?_, ?_, ?_, ?_, ?_, ?_⟩
+    · intro ts r h
+      simp only [pExpr] at h ⊢
+      cases hp : pPost f ts with
+      | none => simp [hp] at h
+      | some ar =>
+        obtain ⟨a, r1⟩ := ar
+        simp only [hp] at h
+        simp only [hP ts _ hp]
+        exact hO a r1 r h
+    · intro a ts r h
+      simp only [pOrs] at h ⊢
+      split at h
+      · next r0 =>
+        cases hp : pPost f r0 with
+        | none => simp [hp] at h
+        | some br =>
+          obtain ⟨b, r1⟩ := br
+          simp only [hp] at h
+          simp only [hP r0 _ hp]
+          exact hO _ r1 r h
+      · exact h
+    · intro ts r h
+      simp only [pPost] at h ⊢
+      cases hp : pAtom f ts with
+      | none => simp [hp] at h
+      | some ar =>
+        obtain ⟨a, r1⟩ := ar
+        simp only [hp] at h
+        simp only [hA ts _ hp]
+        exact hT a r1 r h
+    · intro a ts r h
+      simp only [pTrail] at h ⊢
+      split at h
+      · next n r0 => exact hT _ r0 r h
+      · next r0 =>
+        cases hp : pArgs f r0 with
+        | none => simp [hp] at h
+        | some er =>
+          obtain ⟨es, r1⟩ := er
+          simp only [hp] at h
+          simp only [hR r0 _ hp]
+          split at h
+          · next es' r2 heq =>
+            cases heq
+            exact hT _ r2 r h
+          · cases h
+      · exact h
+    · intro ts r h
+      simp only [pAtom] at h ⊢
+      split at h
+      · exact h
+      · exact h
+      · next r0 =>
+        cases hp : pExpr f r0 with
+        | none => simp [hp] at h
+        | some er =>
+          obtain ⟨e, r1⟩ := er
+          simp only [hp] at h
+          simp only [hE r0 _ hp]
+          exact h
+      · next ts0 r0 =>
+        cases hp : pExpr f ts0 with
+        | none => simp [hp] at h
+        | some er =>
+          obtain ⟨e, r1⟩ := er
+          simp only [hp] at h
+          simp only [hE ts0 _ hp]
+          exact h
+      · cases h
+    · intro ts r h
+      simp only [pArgs] at h ⊢
+      cases hp : pExpr f ts with
+      | none => simp [hp] at h
+      | some er =>
+        obtain ⟨e, r1⟩ := er
+        simp only [hp] at h
+        simp only [hE ts _ hp]
+        have hcomma : ∀ r2, r1 = .comma :: r2 →
+            (match pArgs f r2 with
+              | some (es, r') => some (e :: es, r')
+              | none => none) = some r →
+            (match pArgs (f+1) r2 with
+              | some (es, r') => some (e :: es, r')
+              | none => none) = some r := by
+          intro r2 _ h'
+          cases hq : pArgs f r2 with
+          | none => simp [hq] at h'
+          | some esr =>
+            simp only [hq] at h'
+            simp only [hR r2 _ hq]
+            exact h'
+        cases r1 with
+        | nil => exact h
+        | cons t r2 =>
+          cases t with
+          | comma => exact hcomma r2 rfl h
+          | _ => exact h
+theorem monoE {f g : Nat} (h : f ≤ g) {ts r} (hp : pExpr f ts = some r) : pExpr g ts = some r := by
+  induction h with
+  | refl => exact hp
+  | step _ ih => exact (mono1 _).1 ts r ih
+theorem monoO {f g : Nat} (h : f ≤ g) {a ts r} (hp : pOrs f a ts = some r) : pOrs g a ts = some r := by
+  induction h with
+  | refl => exact hp
+  | step _ ih => exact (mono1 _).2.1 a ts r ih
+theorem monoP {f g : Nat} (h : f ≤ g) {ts r} (hp : pPost f ts = some r) : pPost g ts = some r := by
+  induction h with
+  | refl => exact hp
+  | step _ ih => exact (mono1 _).2.2.1 ts r ih
+theorem monoT {f g : Nat} (h : f ≤ g) {a ts r} (hp : pTrail f a ts = some r) : pTrail g a ts = some r := by
+  induction h with
+  | refl => exact hp
+  | step _ ih => exact (mono1 _).2.2.2.1 a ts r ih
+theorem monoA {f g : Nat} (h : f ≤ g) {ts r} (hp : pAtom f ts = some r) : pAtom g ts = some r := by
+  induction h with
+  | refl => exact hp
+  | step _ ih => exact (mono1 _).2.2.2.2.1 ts r ih
+theorem monoR {f g : Nat} (h : f ≤ g) {ts r} (hp : pArgs f ts = some r) : pArgs g ts = some r := by
+  induction h with
+  | refl => exact hp
+  | step _ ih => exact (mono1 _).2.2.2.2.2 ts r ih
+
+/-! ### printing then parsing -/
+
+theorem pTrail_stop (e : HExpr) (rest : List Tok) (h : stopTrail rest = true) : pTrail 1 e rest = some (e, rest) := by
+  simp only [pTrail]
+  split
+  · simp [stopTrail] at h
+  · simp [stopTrail] at h
+  · rfl
+
+theorem pOrs_stop (e : HExpr) (rest : List Tok) (h : stopExpr rest = true) : pOrs 1 e rest = some (e, rest) := by
+  simp only [pOrs]
+  split
+  · simp [stopExpr] at h
+  · rfl
+
+/-- statement (A): parsing the printed postfix-level form of `e`, then continuing as the trailer loop would from `e` -/
+def PostOK (e : HExpr) : Prop :=
+  ∀ rest res f1, pTrail f1 e rest = some res → ∃ f, pPost f (showP e ++ rest) = some res
+/-- statement (B) -/
+def ExprOK (e : HExpr) : Prop :=
+  ∀ rest res f1, stopTrail rest = true → pOrs f1 e rest = some res → ∃ f, pExpr f (showE e ++ rest) = some res
+
+theorem exprOK_of_post (e : HExpr) (hnb : e.isBor = false) (hp : PostOK e) : ExprOK e := by
+  intro rest res f1 hstop hors
+  obtain ⟨f, hf⟩ := hp rest (e, rest) 1 (pTrail_stop e rest hstop)
+  have hs : showP e = showE e := by simp [showP, hnb]
+  rw [hs] at hf
+  refine ⟨max f f1 + 1, ?_⟩
+  simp only [pExpr, monoP (Nat.le_max_left f f1) hf]
+  exact monoO (Nat.le_max_right f f1) hors
+
+theorem exprOK_bor (a b : HExpr) (ha : ExprOK a) (hb : PostOK b) : ExprOK (.bor a b) := by
+  intro rest res f1 hstop hors
+  -- after `a`: `| <b> rest`
+  obtain ⟨fb, hfb⟩ := hb rest (b, rest) 1 (pTrail_stop b rest hstop)
+  have hstep : pOrs (max fb f1 + 1) a (.bar :: (showP b ++ rest)) = some res := by
+    simp only [pOrs, monoP (Nat.le_max_left fb f1) hfb]
+    exact monoO (Nat.le_max_right fb f1) hors
+  have hst : stopTrail (.bar :: (showP b ++ rest)) = true := rfl
+  obtain ⟨f, hf⟩ := ha (.bar :: (showP b ++ rest)) res _ hst hstep
+  refine ⟨f, ?_⟩
+  have : showE (.bor a b) ++ rest = showE a ++ (.bar :: (showP b ++ rest)) := by
+    simp [showE, showP, List.append_assoc]
+  rw [this]; exact hf
+
+theorem postOK_paren (e : HExpr) (hb : e.isBor = true) (he : ExprOK e) : PostOK e := by
+  intro rest res f1 htr
+  have hst : stopTrail (.rpar :: rest) = true := rfl
+  obtain ⟨f, hf⟩ := he (.rpar :: rest) (e, .rpar :: rest) 1 hst (pOrs_stop e _ rfl)
+  refine ⟨max f f1 + 2, ?_⟩
+  have hs : showP e ++ rest = .lpar :: (showE e ++ (.rpar :: rest)) := by simp [showP, hb, List.append_assoc]
+  rw [hs]
+  have hA : pAtom (max f f1 + 1) (.lpar :: (showE e ++ (.rpar :: rest))) = some (e, rest) := by
+    simp only [pAtom, monoE (Nat.le_max_left f f1) hf]
+  simp only [pPost, hA]
+  exact monoT (Nat.le_trans (Nat.le_max_right f f1) (Nat.le_succ _)) htr
+
+def ArgsOK (es : List HExpr) : Prop :=
+  es ≠ [] → ∀ rest, ∃ f, pArgs f (showE.showArgs es ++ (.rbr :: rest)) = some (es, .rbr :: rest)
+
+mutual
+theorem postOK : ∀ e : HExpr, e.wf = true → PostOK e
+  | .name n, _ => by
+    intro rest res f1 htr
+    refine ⟨f1 + 2, ?_⟩
+    simp only [showP, HExpr.isBor, showE, Bool.false_eq_true, ↓reduceIte, List.cons_append, List.nil_append, pPost, pAtom]
+    exact monoT (Nat.le_succ _) htr
+  | .lit l, _ => by
+    intro rest res f1 htr
+    refine ⟨f1 + 2, ?_⟩
+    simp only [showP, HExpr.isBor, showE, Bool.false_eq_true, ↓reduceIte, List.cons_append, List.nil_append, pPost, pAtom]
+    exact monoT (Nat.le_succ _) htr
+  | .quoted e, hw => by
+    intro rest res f1 htr
+    have he := exprOK e (by simpa [HExpr.wf] using hw)
+    obtain ⟨f, hf⟩ := he [] (e, []) 1 rfl (pOrs_stop e [] rfl)
+    simp only [List.append_nil] at hf
+    refine ⟨max f f1 + 2, ?_⟩
+    have hA : pAtom (max f f1 + 1) (.str (showE e) :: rest) = some (.quoted e, rest) := by
+      simp only [pAtom, monoE (Nat.le_max_left f f1) hf]
+    simp only [showP, HExpr.isBor, showE, Bool.false_eq_true, ↓reduceIte, List.cons_append, List.nil_append, pPost, hA]
+    exact monoT (Nat.le_trans (Nat.le_max_right f f1) (Nat.le_succ _)) htr
+  | .attr e n, hw => by
+    intro rest res f1 htr
+    have he := postOK e (by simpa [HExpr.wf] using hw)
+    have hstep : pTrail (f1 + 1) e (.dot :: .id n :: rest) = some res := by
+      simp only [pTrail]; exact htr
+    obtain ⟨f, hf⟩ := he (.dot :: .id n :: rest) res _ hstep
+    refine ⟨f, ?_⟩
+    have : showP (.attr e n) ++ rest = showP e ++ (.dot :: .id n :: rest) := by
+      simp [showP, HExpr.isBor, showE, List.append_assoc]
+    rw [this]; exact hf
+  | .sub e es, hw => by
+    intro rest res f1 htr
+    simp only [HExpr.wf, Bool.and_eq_true, Bool.not_eq_eq_eq_not, Bool.not_true, List.isEmpty_eq_false_iff] at hw
+    have he := postOK e hw.1.1
+    obtain ⟨fa, hfa⟩ := argsOK es hw.2 hw.1.2 rest
+    have hstep : pTrail (max fa f1 + 1) e (.lbr :: (showE.showArgs es ++ (.rbr :: rest))) = some res := by
+      simp only [pTrail, monoR (Nat.le_max_left fa f1) hfa]
+      exact monoT (Nat.le_max_right fa f1) htr
+    obtain ⟨f, hf⟩ := he _ res _ hstep
+    refine ⟨f, ?_⟩
+    have : showP (.sub e es) ++ rest = showP e ++ (.lbr :: (showE.showArgs es ++ (.rbr :: rest))) := by
+      simp [showP, HExpr.isBor, showE, List.append_assoc]
+    rw [this]; exact hf
+  | .bor a b, hw => by
+    simp only [HExpr.wf, Bool.and_eq_true] at hw
+    exact postOK_paren (.bor a b) rfl (exprOK_bor a b (exprOK a hw.1) (postOK b hw.2))
+theorem exprOK : ∀ e : HExpr, e.wf = true → ExprOK e
+  | .name n, hw => exprOK_of_post _ rfl (postOK (.name n) hw)
+  | .lit l, hw => exprOK_of_post _ rfl (postOK (.lit l) hw)
+  | .quoted e, hw => exprOK_of_post _ rfl (postOK (.quoted e) hw)
+  | .attr e n, hw => exprOK_of_post _ rfl (postOK (.attr e n) hw)
+  | .sub e es, hw => exprOK_of_post _ rfl (postOK (.sub e es) hw)
+  | .bor a b, hw => by
+    simp only [HExpr.wf, Bool.and_eq_true] at hw
+    exact exprOK_bor a b (exprOK a hw.1) (postOK b hw.2)
+theorem argsOK : ∀ es : List HExpr, HExpr.wf.wfL es = true → ArgsOK es
+  | [], _ => by intro h; exact absurd rfl h
+  | [e], hw => by
+    intro _ rest
+    simp only [HExpr.wf.wfL, Bool.and_true] at hw
+    obtain ⟨f, hf⟩ := exprOK e hw (.rbr :: rest) (e, .rbr :: rest) 1 rfl (pOrs_stop e _ rfl)
+    refine ⟨f + 1, ?_⟩
+    simp only [showE.showArgs, pArgs, hf]
+  | e :: e2 :: es, hw => by
+    intro _ rest
+    simp only [HExpr.wf.wfL, Bool.and_eq_true] at hw
+    obtain ⟨fr, hfr⟩ := argsOK (e2 :: es) (by simp [HExpr.wf.wfL, hw.2.1, hw.2.2]) (by simp) rest
+    have hst : stopTrail (.comma :: (showE.showArgs (e2 :: es) ++ (.rbr :: rest))) = true := rfl
+    obtain ⟨f, hf⟩ := exprOK e hw.1 (.comma :: (showE.showArgs (e2 :: es) ++ (.rbr :: rest))) (e, _) 1 hst (pOrs_stop e _ rfl)
+    refine ⟨max f fr + 1, ?_⟩
+    have : showE.showArgs (e :: e2 :: es) ++ (.rbr :: rest) = showE e ++ (.comma :: (showE.showArgs (e2 :: es) ++ (.rbr :: rest))) := by
+      simp [showE.showArgs, List.append_assoc]
+    rw [this]
+    simp only [pArgs, monoE (Nat.le_max_left f fr) hf, monoR (Nat.le_max_right f fr) hfr]
+end
+
 end BearVerif.Fwd
